@@ -15,6 +15,9 @@ func propC13(r *Report, tier string) {
 	ruleRollbackTx(r, "K5-rollback-one-tx")
 	ruleErrorsLookedAt(r, "Kerr-errors-looked-at", func(rel string) bool { return rel == "index/scorch" }, errAllowScorch)
 	rulePurgerGuards(r, "K5-purger-guards")
+	ruleDeletedBitsWrittenForEverySegment(r, "K5-deleted-bits-for-every-segment")
+	ruleLoopScratchBufferReset(r, "K5-loop-scratch-buffer-reset", "index/scorch")
+	ruleMarkBeforeCreate(r, "K5-mark-before-create")
 	ruleInMemoryMergeCoverage(r, "K14-memmerge-coverage")
 	ruleBoltKeyAgreement(r, "K11-bolt-keys")
 	ruleDeleteBucketSites(r, "K7-delete-bucket-sites")
